@@ -896,10 +896,10 @@ Section Faults.
   Qed.
 
   (* where no pattern is malformed the regexp repair changes nothing *)
-  Lemma handle_flags_fixed_same a b d e si g c :
+  Lemma handle_flags_fixed_same a b d e si li g c :
     forallb re_ok (c_ignore_err c) = true ->
-    handle_flags {| fx_regexp := false; fx_gate := a; fx_coupled := b; fx_dead := d; fx_dup := e; fx_sites := si |} re_ok g c
-    = handle_flags {| fx_regexp := true; fx_gate := a; fx_coupled := b; fx_dead := d; fx_dup := e; fx_sites := si |} re_ok g c.
+    handle_flags {| fx_regexp := false; fx_gate := a; fx_coupled := b; fx_dead := d; fx_dup := e; fx_sites := si; fx_live := li |} re_ok g c
+    = handle_flags {| fx_regexp := true; fx_gate := a; fx_coupled := b; fx_dead := d; fx_dup := e; fx_sites := si; fx_live := li |} re_ok g c.
   Proof. intros H. unfold handle_flags, compile_all. cbn [fx_regexp fx_dead]. rewrite H. reflexivity. Qed.
 End Faults.
 
